@@ -98,6 +98,23 @@ def trail_pairing(repo: Repo, R: Resolver, res: CheckResult) -> None:
                                         "an element loader is applied outside any try block in a trail-annotating closure: "
                                         "its errors carry no position", call.lineno))
                         continue
+                    if all_mode:
+                        # an application that sits in the `else:` of a try around ANOTHER application runs only when that one
+                        # succeeded: its own invalid leaves are lost whenever the other fails
+                        node_: ast.AST = call
+                        par = m.parent(node_)
+                        while par is not None and par is not loop:
+                            if isinstance(par, ast.Try) and any(node_ is x for x in par.orelse):
+                                others = [norm(c) for b in par.body for c in ast.walk(b)
+                                          if isinstance(c, ast.Call) and _is_provided_call(R, c, fctx)]
+                                if others:
+                                    res.add(Finding("C05", "ALL.skips-independent-leaf", m.rel, qual,
+                                                    f"{norm(call)} only in the else of the try around {others[0]}",
+                                                    f"`{norm(call)}` is applied only when `{others[0]}` succeeded (it sits in the "
+                                                    "`else:` of that try): when both parts of one item are invalid the leaves "
+                                                    "under the second are missing from the ALL-mode report", call.lineno))
+                            node_ = par
+                            par = m.parent(par)
                     want = _expected_position(loop, call)
                     for h in tr.handlers:
                         hv = h.name
